@@ -25,7 +25,7 @@ TABLE = {
     'C20': (True, 'AST-to-SMT translation (ast2smt) of epsilon_tensor / epsilon_tensor_rank4 / Grid_gamma / kn vjp from the current source; z3 over symbolic ints, strings and an uninterpreted K_n',
             'Permutation-sign value and raise-iff-outside-domain are decided for all index tuples in the box, the accepted Grid tags are shown to be exactly the 16 documented '
             'strings (symbolic string), the K_n derivative rule holds for every integer order; Dirac tables are checked in exact arithmetic.',
-            'Index box bounded ([-1,5], thorough [-3,8]); K_n uninterpreted with K_{-n}=K_n; re-exported autograd.scipy.special functions outside.'),
+            'Index box bounded ([-1,5], thorough [-3,8]); K_n uninterpreted with K_{-n}=K_n, the three-term recurrence and ans = K_n(x) as facts; the vjp registered with autograd is evaluated itself (module source re-executed with a recording defvjp) for every integer order and every cotangent; re-exported autograd.scipy.special functions outside.'),
     'C02': (True, 'symbolic execution of gamma_method (Gamma(t) abstraction point, symbolic S/tau_exp/N_sigma/eps/tiny) + per-path SMT equivalence with Wolff formulas; ast2smt padding/index lemmas for the FFT branch',
             'Compositional: Gamma(t) of the real _calc_gamma equals the pair-normalised autocorrelation sum for all fluctuations; every output of the real windowing / bias / '
             'drho / tail / S=0 code equals the paper formula on every path for all Gamma values and parameters; the FFT padding lemma holds for all integers.',
@@ -37,8 +37,8 @@ TABLE = {
     'C06': (True, 'symbolic execution of covariance/_covariance_element/sort_corr/error_band on z3 reals with size-triggered term abstraction; SMT (QF_NRA) identities incl. sqrt lemmas',
             'Symmetry, diagonal = dvalue^2, unit-diagonal correlation, zero covariance for disjoint support, permutation equivariance, Pearson identity on the common '
             'configurations, the general normalisation formula, J1 Sigma J2^T, |corr|<=1 (compositional, thorough), sort_corr = key permutation and error_band^2 = g^T C g are proven '
-            'for all sample values / gradients / matrix entries over the enumerated layouts.',
-            'Real-number semantics; PSD for n>2, eigenvalue smoothing and the Cholesky-based inverse are outside (LAPACK); data assumed non-degenerate (non-zero variance on common configurations).'),
+            'for all sample values / gradients / matrix entries over the enumerated layouts. Under LAPACK contracts: eigenvalue smoothing returns V diag(w_smoothed) V^T with trace n and unchanged ratios of the E largest eigenvalues (n = 5), the Cholesky-based inverse X is lower triangular with (X^T X)(D corr D) = 1 (n = 2).',
+            'Real-number semantics; PSD for n>2 outside; eigenvalue smoothing and the Cholesky-based inverse only under the eigh / cholesky / solve_triangular contracts (LAPACK numerics outside); data assumed non-degenerate (non-zero variance on common configurations).'),
     'C14': (True, 'symbolic execution of Corr operators / functions / index transformations on correlators with distinct symbolic samples per entry, symbolic integer arguments; SMT equality per entry + structural non-mutation checks',
             'Timeslice-wise action, preserved T/N, exact propagation of undefined slices, the stated index maps (roll for all dt, thin for all spacing/offset, symmetric, anti_symmetric, '
             'T_symmetry, item, projected, trace, matrix_symmetric, Hankel) and non-mutation of operands and arguments are decided for all sample values over the enumerated None patterns.',
@@ -55,12 +55,12 @@ TABLE = {
             'For linear models with symbolic y samples, symbolic errors, symbolic priors and a symbolic inverse Cholesky factor: the function handed to the minimiser is the documented chi-square at an arbitrary point, '
             'the matrices handed to scipy.linalg.solve are the GLS normal matrix and right-hand side, and every fluctuation / gradient of every parameter is -X times the (embedded) data fluctuation; '
             'together with the contracts this is the GLS estimator in value and every fluctuation; chisquare, dof and p-value arguments are decided as well.',
-            'Minimisers and LAPACK replaced by contracts (stationary point; A X = B); estimated correlation matrices and expected_chisquare outside; the final linear-algebra step (H X = M => GLS) is an argument, not a query.'),
+            'Minimisers and LAPACK replaced by contracts (stationary point, or reported failure with an arbitrary point - then the fit must raise; A X = B); estimated correlation matrices and expected_chisquare outside; the final linear-algebra step (H X = M => GLS) is an argument, not a query.'),
     'C08': (True, 'symbolic execution of least_squares / total_least_squares for non-linear models behind minimiser / ODR / linear-solve contracts; decomposed SMT obligations (A) Hessian, (B) mixed derivatives, (C) wiring, (D) function minimised',
             'For exponential, cosh, rational and multi-dimensional models (and the TLS straight line / exponential / rational) the matrices handed to the linear solver are proven to be the Hessian and the '
             'mixed second derivatives of an independently written chi-square (incl. the x-residual term) at the stationary point, and every parameter fluctuation is -X d(data) in the library\'s data order; '
             'with H X = M this is the implicit-function rule for all sample values.',
-            'Minimiser / ODRPACK numerics replaced by the stationary-point contract; the re-fit corollary and the dx->0 limit are consequences, not separately run; final linear-algebra step is an argument.'),
+            'Minimiser / ODRPACK numerics replaced by the stationary-point contract (incl. the failure mode success=False / ODR info 4, 5, on which the fit must raise; replayed by driving the real libraries into their iteration limit); the re-fit corollary and the dx->0 limit are consequences, not separately run; final linear-algebra step is an argument.'),
     'C10': (True, 'symbolic execution of linalg.matmul / jack_matmul / inv / _scalar_mat_op / array_mode on matrices of symbolic observables; SMT equivalence modulo embedding; LAPACK inverse replaced by its (differentiated) contract',
             'matmul (real, complex, 2-3 factors) and array_mode equal the explicit sum of element products; jack_matmul has the exact central value and the jackknife pseudo-value fluctuations; '
             'inv(): the matrix handed to LAPACK is A (resp. [[A,-B],[B,A]]), the result carries X (resp. X11 + i X21) and every fluctuation is -(X dM X), which with M X = 1 gives A inv(A) = 1 in value and every fluctuation; '
@@ -78,11 +78,11 @@ TABLE = {
             'For every real value and every positive error in the exponent range, significance 1..6 and flags "", "+", " ": value and error are recovered from the printed string within half a unit of the last printed digit, the error has '
             'the requested number of significant digits, flags only prepend their character, CObs prints both parts, prior strings give exactly the parsed value and error, and comparisons / n-sigma test / plottable use value and dvalue.',
             'Claim over the reals: libm log10 at powers of ten and binary rounding inside printf are outside.'),
-    'C17': (True, 'symbolic execution of the openQCD binary readers on a typed-buffer file model and of the sfcf text readers on a tagged-token text model (every stored number a distinct z3 symbol, directory listing order a parameter); z3 normal-form / SMT equality with the documented reduction per record',
+    'C17': (True, 'symbolic execution of the openQCD binary readers on a typed-buffer file model, of the sfcf text readers on a tagged-token text model and of the Hadrons hdf5 correlator reader on a model of h5py (every stored number a distinct z3 symbol, directory listing order a parameter); z3 normal-form / SMT equality with the documented reduction per record',
             'read_rwms (1.4/1.6/2.0), read_qtop/_read_flow_obs (openQCD) and read_ms5_xsf are proven to attach to every replica name and configuration number exactly the documented reduction of the numbers stored in that record, '
             'for all stored values, over replica sets with differing digit counts, all listing permutations, several factors / sources / flow times / correlators and r_start / r_stop / r_step selections; '
             'read_sfcf (versions 2.0 / 2.0c / 2.0a: folder, compact and appended layout; bi / bb / bib correlators, wf / wf2 selections, real and imaginary part, explicit file lists) likewise.',
-            'Hadrons hdf5 readers are not applicable to this technique (h5py); sfcf version 0.0 and read_sfcf_multi with several names per call not covered; file system replaced by the in-memory models.'),
+            'Hadrons hdf5: read_hd5 / read_meson_hd5 on a structural model of h5py (tree of groups, symbolic complex datasets; file order by configuration number, idl selections, entry by attributes / index, real / imag / complex part); the other hdf5 readers not covered; sfcf version 0.0 and read_sfcf_multi with several names per call not covered; file system replaced by the in-memory models.'),
     'C18': (True, 'symbolic execution of the openQCD binary readers with a symbolic file length L (typed-buffer model; the solver partitions all truncation offsets into path classes) and of the sfcf text readers with a symbolic cut position (one path per byte, numbers symbolic); SMT / normal-form equality with the complete-record prefix',
             'For every truncation length 0..len-1 of the truncated file (covered by the path partition, 3000+ classes) the reader either raises or returns exactly the observables of all complete records preceding the cut; '
             'the partial-read abstraction is justified by an AST scan of the current source on every run.',
